@@ -23,7 +23,8 @@ PROP = {
             "rtunnel_hs = the relay's own ACT/CFG handshake with bytes arriving IN-BAND at every point of it (keys typed at the client's terminal, noise printed by the server; before the ACT, between ACT and CFG, "
             "after the CFG, after the reset) for every shape of handshake (tunnel agreed with the ACT through the tunnel or typed in-band / a tunnel exists but the ACT says tunnel=false / no tunnel / confirm=false / a junk line), "
             "ended by nothing, by #EXIT: through the tunnel or by #EXIT: in-band; every phase alone and all together for every shape as corpus; compared: both in-band streams (the relay's own lines as tokens), "
-            "what every tunnel connection received, who is adopted; "
+            "what every tunnel connection received, who is adopted; tunnel segments around the handshake lines (the ACT's segment carries trailing bytes, a further client segment arrives inside the handshake, "
+            "the CFG's segment carries trailing bytes, a further server segment follows, one more each way while transferring) with the per-direction oracle far stream = near stream (order and content); "
             "rtunnel_e2e = real filter -> real relay -> real trz/tsz child with the tunnel through the relay, the RELAYED trigger held back while intruders talk to the relay's port, keys typed in-band at the relay's client side "
             "before the ACT, between ACT and CFG (the server's CFG is held back on the relay's tunnel connection meanwhile) and after the CFG, both tunnel hops logged. "
             "non-trivial = every scenario (at least one connection is handled); distinct = distinct input line",
@@ -57,7 +58,7 @@ TEXT = {
             "server answered; a client presenting anything else gets no byte, no server connection is even opened for it, and its handler's next statement closes it; tunnelRelay holds a pair exactly when it won the compare-and-swap since the last "
             "reset, at most one per era, and changes only by a reset; every chunk on a bridge was read from that pair's own other connection or sent by the relay itself, and only a pair that won ever has a chunk, a pump or the back-pointer; the pair "
             "that loses the swap gets both connections closed; once tunnelConnected is set (the relay has read an ACT with tunnel=true) a chunk the relay reads in-band — in any phase of its handshake, while transferring, after the reset — is never parked, "
-            "never in a bridge, never written to a tunnel connection, but passed on in-band unchanged in that very step, and nothing read from a tunnel connection is written in-band while tunnelConnected is set; the rewrite of `:<id>:<server port>` to `:<id>:<relay port>` in the relayed trigger is what makes the genuine client's hello match (a hello computed from the server's port is rejected). "
+            "never in a bridge, never written to a tunnel connection, but passed on in-band unchanged in that very step, and nothing read from a tunnel connection is written in-band while tunnelConnected is set; per pair and direction what is written to the far tunnel connection, then in the bridge's channel, then parked in the relay's handshake buffer is — in this order — what the pump read from the near connection with bytes left out and nothing overtaken (C17_relay_order), a pump forwards only when nothing of its pair and direction is parked; the rewrite of `:<id>:<server port>` to `:<id>:<relay port>` in the relayed trigger is what makes the genuine client's hello match (a hello computed from the server's port is rejected). "
             "Tied to the code by regenerated constants and statement skeleton, by trace replay of the extracted models against the real functions on real loopback sockets (the relay through trzsz.NewTrzszRelay, in child processes), "
             "and by end-to-end runs of the real binaries, with and without a relay, with scripted intruders.",
     "note": "Limits: a connection that presents the right hello after another one won the swap has been ANSWERED and is simply dropped (not adopted, feeds nothing; its descriptor is closed only when the Go garbage collector finalizes it); "
